@@ -207,7 +207,7 @@ def compile_closure(prep, ob, dflags, wd, tag, extra_inc):
     else:
         shutil.copy(lls[0], linked)
     opt = os.path.join(wd, tag + 'closure.ll')
-    rc, o, e, _ = sh(['opt-14', '-S', '-enable-new-pm=0', '-internalize', '-internalize-public-api-list=' + ','.join([entry] + sorted(set(ob.get('redirect', {}).values()))),
+    rc, o, e, _ = sh(['opt-14', '-S', '-enable-new-pm=0', '-internalize', '-internalize-public-api-list=' + ','.join([entry] + sorted(set(ob.get('redirect', {}).values())) + list(ob.get('keep', []))),
                       '-globaldce', linked, '-o', opt], timeout=300)
     if rc != 0:
         raise Inconclusive('opt failed:\n' + e[-2000:])
@@ -228,7 +228,7 @@ def havoc_header(prep, ob, dflags, wd):
         d1 = os.path.join(wd, 'phase1')
         os.makedirs(d1, exist_ok=True)
         open(os.path.join(d1, 'vp_havoc_gen.h'), 'w').write('/* phase 1: empty */\n')
-        opt = compile_closure(prep, ob, dflags, d1, 'p1', ['-I' + d1])
+        opt = compile_closure(prep, ob, dflags, d1, 'p1', ['-I' + d1, '-I' + wd])
         names = closure_options(opt)
         pinned = set(ob.get('pinned_options', []))
         txt = '/* generated: option objects read by the closure of %s (regenerated every run) */\n' % ob['entry']
@@ -239,9 +239,25 @@ def havoc_header(prep, ob, dflags, wd):
         return _havoc_cache[key]
 
 
+def patch_sources(ob, wd):
+    """mechanical, regenerated-every-run renames in a copy of a real source file (used to detach one
+    function definition so that the harness can supply the environment stub for it in BOTH builds)"""
+    for spec in ob.get('patch_sources', []):
+        src = os.path.join(REPO, 'src', spec['file'])
+        txt = open(src).read()
+        for (pat, repl, want) in spec['subs']:
+            txt, n = re.subn(pat, repl, txt, flags=re.M)
+            if n != want:
+                raise Inconclusive('source patch %r matched %d times in %s (expected %d): the code changed shape' % (pat, n, spec['file'], want))
+        d = os.path.join(wd, 'patched')
+        os.makedirs(d, exist_ok=True)
+        open(os.path.join(d, os.path.basename(spec['file'])), 'w').write(txt)
+
+
 def build_instance(prep, ob, inst, wd):
     """clang -> IR -> C (+ native drivers). Returns dict of artefacts."""
     os.makedirs(wd, exist_ok=True)
+    patch_sources(ob, wd)
     entry = ob['entry']
     defs = dict(ob.get('defs', {}))
     defs.update(inst.get('defs', {}))
@@ -257,6 +273,12 @@ def build_instance(prep, ob, inst, wd):
     gen = os.path.join(wd, 'gen.c')
     stats = os.path.join(wd, 'stats.json')
     cmd = [sys.executable, os.path.join(ENGINE, 'ir2c.py'), opt, gen, '--entry', entry, '--stats', stats, '--noop-re', NOOP_RE.pattern]
+    if ob.get('printf_model'):
+        cmd += ['--printf-model']
+    if ob.get('cut_re'):
+        cmd += ['--cut-re', ob['cut_re']]
+    for k in ob.get('keep', []):
+        cmd += ['--keep', k]
     for a, b in ob.get('redirect', {}).items():
         cmd += ['--redirect', '%s=%s' % (a, b)]
     for n in ob.get('noop', []):
@@ -303,7 +325,7 @@ def build_native(prep, ob, inst, art):
                               'int main() { vp_rt_init(); %s(); vp_rt_fini(); return 0; }\n' % (art['entry'], art['entry']))
     nat = os.path.join(wd, 'vp_native.o')
     rc, o, e, _ = sh(['gcc', '-O1', '-c', os.path.join(MODELS, 'vp_native.c'), '-o', nat], timeout=120)
-    rc, o, e, _ = sh(['g++', '-O1', '-w', '-Wl,--gc-sections', main_cpp] + objs + [nat, prep['libunc'], '-o', real_bin], timeout=600)
+    rc, o, e, _ = sh(['g++', '-O1', '-w', '-Wl,--gc-sections', '-Wl,--allow-multiple-definition', main_cpp] + objs + [nat, prep['libunc'], '-o', real_bin], timeout=600)
     if rc != 0:
         raise Inconclusive('link of real driver failed:\n' + e[-3000:])
     art['gen_bin'] = gen_bin
@@ -388,10 +410,11 @@ def cbmc_cmd(ob, inst, art, extra=()):
             loops = re.findall(r'^Loop (\S+):', o, re.M)
             art['loops'] = loops
         sets = []
-        for pat, bound in us.items():
-            for l in loops:
+        for l in loops:
+            for pat, bound in us.items():      # first matching pattern wins
                 if re.search(pat, l):
                     sets.append('%s:%d' % (l, bound))
+                    break
         if sets:
             cmd += ['--unwindset', ','.join(sets)]
     cmd += list(ob.get('cbmc_flags', [])) + list(extra)
@@ -455,7 +478,7 @@ def extract_nd_trace(out, prop_id):
 def run_cbmc(ob, inst, art, tier):
     tmo = inst.get('timeout', ob.get('timeout', {}).get(tier, 600 if tier == 'quick' else 3000))
     mem = ob.get('mem_gb', 12 if tier == 'quick' else 24)
-    cmd = cbmc_cmd(ob, inst, art)
+    cmd = cbmc_cmd(ob, inst, art, extra=['--trace'])
     rc, o, e, dt = sh(cmd, timeout=tmo, mem_gb=mem)
     art['cbmc_cmd'] = ' '.join(cmd)
     art['cbmc_s'] = round(dt, 2)
@@ -471,6 +494,11 @@ def run_cbmc(ob, inst, art, tier):
 
 
 def cex_for(ob, inst, art, prop_id, tier):
+    # the main run already carries --trace: one trace per failed property
+    if art.get('cbmc_out'):
+        tr = extract_nd_trace(art['cbmc_out'], prop_id)
+        if tr is not None and ('Trace for ' + prop_id + ':') in art['cbmc_out']:
+            return tr
     cmd = cbmc_cmd(ob, inst, art, extra=['--property', prop_id, '--trace'])
     rc, o, e, dt = sh(cmd, timeout=ob.get('timeout', {}).get(tier, 900), mem_gb=ob.get('mem_gb', 16))
     open(os.path.join(art['wd'], 'cex_%s.out' % re.sub(r'\W', '_', prop_id)), 'w').write(o)
@@ -495,6 +523,7 @@ def run_instance(prep, ob, inst, tier, seed, scratch):
         build_native(prep, ob, inst, art)
         res['translator_validation'] = validate_translation(ob, inst, art, seed)
         props, stats, out = run_cbmc(ob, inst, art, tier)
+        art['cbmc_out'] = out
         res['cbmc'] = stats
         res['cbmc_cmd'] = art['cbmc_cmd']
         res['cbmc_s'] = art['cbmc_s']
@@ -518,10 +547,17 @@ def run_instance(prep, ob, inst, tier, seed, scratch):
             incon.append('vacuity: witness not reachable: ' + ', '.join(required))
         res['witnesses_unreached_optional'] = [w for w in unreached if w.startswith('opt:')]
         cands = []
+        notes = []
         for k in ('A', 'T', 'U', 'SAFETY'):
             for p in byclass.get(k, []):
                 if p['status'] != 'SUCCESS':
+                    if k == 'SAFETY' and 'same object violation' in p['desc'] and re.match(r'f__ZNK?St|f__ZSt|f__ZN9__gnu_cxx', p['id']):
+                        # libstdc++'s aliasing test (_M_disjunct) orders pointers into different objects: defined
+                        # through std::less, flagged by CBMC's pointer model, never reproducible natively (DESIGN section 1, UB-NOTE)
+                        notes.append('%s %s' % (p['id'], p['desc']))
+                        continue
                     cands.append(p)
+        res['ub_notes'] = notes
         # sample case from a reached witness
         if wit and ob.get('sample_witness', True) and art['cbmc_s'] < 40:
             w0 = [p for p in wit if p['status'] == 'FAILURE']
